@@ -89,6 +89,23 @@ def check_valid(hyps, goal, rlimit=None, want_model=False, use_cvc5=True, timeou
     return check_smt2(to_smt2(hyps, goal, get_model=want_model), timeout=timeout, want_model=want_model, use_cvc5=use_cvc5)
 
 
+def second_opinion(smt2: str, timeout=10.0):
+    """cvc5 alone on a query z3 answered `unsat`: 'unsat' (confirmed) | 'sat' (DISAGREEMENT) | 'unknown'."""
+    if not os.path.exists(CVC5):
+        return "unavailable"
+    fd, path = tempfile.mkstemp(suffix=".smt2")
+    with os.fdopen(fd, "w") as fh:
+        fh.write("(set-logic ALL)\n" + smt2.replace("(get-model)", ""))
+    try:
+        first, out, dt = _run([CVC5, "--lang", "smt2", f"--tlimit={int(timeout * 1000)}"], path, timeout)
+    finally:
+        try:
+            os.unlink(path)
+        except OSError:
+            pass
+    return first if first in ("unsat", "sat") else "unknown"
+
+
 def quick_valid(hyps, goal, timeout=2.0):
     """Cheap entailment probe used DURING symbolic execution (e-matching only, one short z3 run): True only when proved."""
     fd, path = tempfile.mkstemp(suffix=".smt2")
